@@ -283,9 +283,10 @@ Proof.
     destruct (negb (forallb (col_exists (st_sch st)) (c :: cols')) ||
               existsb (index_eqb (c :: cols')) (s_indexes (st_sch st)) ||
               list_eqb bytes_eqb (c :: cols') (primary_cols (st_sch st)) ||
-              uniq && match lives (st_docs st) with [] => false | _ :: _ => true end) eqn:C; simpl; auto.
+              uniq && match lives (st_docs st) with [] => false | _ :: _ => true end ||
+              (max_key_len <? entry_key_len (st_sch st) (c :: cols'))) eqn:C; simpl; auto.
     split; [|exact HN].
-    apply orb_false_iff in C as [_ C].
+    apply orb_false_iff in C as [C _]. apply orb_false_iff in C as [_ C].
     intros ix Hix Un a b Ha Hb Hab. simpl in *.
     apply in_app_or in Hix as [Hix|[<-|[]]].
     + apply (HU ix Hix Un a b Ha Hb Hab).
